@@ -1,1 +1,69 @@
-Require Import Gengo.Base.Str Gengo.Model.Universe.
+(* C06 — one object per type: identity is canonical and references are closed.
+   In the model an object IS its own name in the heap [objs]; keys of Package.Types resolve to
+   objects through [tkeys].  "The same object" is therefore: the same key resolves to the same
+   heap name for ever (ext), and references stored in entries are heap names. *)
+Require Import Gengo.Base.Str Gengo.Model.Universe Gengo.Proofs.UniverseProofs.
+
+(* Universe.Type twice: same object, nothing changes the second time *)
+Theorem C06_lookup_idempotent : forall v2 u n u1 o,
+  get_or_create v2 u n = (u1, o) -> get_or_create v2 u1 n = (u1, o).
+Proof. exact get_or_create_idem. Qed.
+Print Assumptions C06_lookup_idempotent.
+
+(* ... and after any number of other lookups in between *)
+Theorem C06_lookup_stable : forall v2 u k ks,
+  let '(u1, o) := get_or_create v2 u k in snd (get_or_create v2 (lookups v2 u1 ks) k) = o.
+Proof. exact lookup_stable. Qed.
+Print Assumptions C06_lookup_stable.
+
+(* ... and after any amount of further loading (lookups interleaved with loading) *)
+Theorem C06_lookup_stable_across_loads : forall v2 p fuel u k gs pk w',
+  let '(u1, o) := get_or_create v2 u k in
+  fold_left (add_package v2 p fuel) gs (Some {| w_u := u1; w_pkgs := pk |}) = Some w' ->
+  get_or_create v2 (w_u w') k = (w_u w', o).
+Proof. exact lookup_stable_across_loads. Qed.
+Print Assumptions C06_lookup_stable_across_loads.
+
+(* a lookup never re-binds another key, never changes a decided kind, keeps well-formedness *)
+Theorem C06_lookup_extends : forall v2 u n u1 o, get_or_create v2 u n = (u1, o) -> ext u u1.
+Proof. exact get_or_create_ext. Qed.
+Print Assumptions C06_lookup_extends.
+
+(* walkType, on every program and universe: the same *)
+Theorem C06_walk_extends : forall v2 p fuel u use t u' o, walk v2 p fuel u use t = Some (u', o) -> ext u u'.
+Proof. exact walk_ext. Qed.
+Print Assumptions C06_walk_extends.
+
+(* what a walk hands back (and hence what is stored as a field, element, key, parameter, result,
+   receiver or underlying type) is the object some key resolves to, and it is no placeholder *)
+Theorem C06_references_closed : forall v2 p, (forall t ts, plookup t p <> Some (ts, STypeParam)) ->
+  forall fuel u use t u' o, wf u -> walk v2 p fuel u use t = Some (u', o) -> good u' o.
+Proof. exact walk_good. Qed.
+Print Assumptions C06_references_closed.
+
+(* walking a type that is already there resolves to the existing object and changes nothing *)
+Theorem C06_occurrence_reuses_object : forall v2 p f u use t tstr sh o,
+  plookup t p = Some (tstr, sh) -> no_tparams sh = true ->
+  nlookup (key_of v2 use tstr sh) (tkeys u) = Some o -> complete u o = true ->
+  walk v2 p (S f) u use t = Some (u, o).
+Proof. exact walk_noop. Qed.
+Print Assumptions C06_occurrence_reuses_object.
+
+(* builtins are shared singletons *)
+Theorem C06_builtin_singleton : forall v2 u k bn bk,
+  nlookup ([], k) (tkeys u) = None -> builtin_of v2 k = Some (bn, bk) -> snd (get_or_create v2 u ([], k)) = ([], bn).
+Proof. exact builtin_lookup. Qed.
+Print Assumptions C06_builtin_singleton.
+
+(* the hypotheses are satisfiable: the empty universe is well-formed, so is all that loading builds *)
+Theorem C06_wf_empty : wf {| objs := []; tkeys := [] |}.
+Proof. exact wf_empty. Qed.
+Print Assumptions C06_wf_empty.
+
+Example C06_example :
+  let u0 := {| objs := []; tkeys := [] |} in
+  let '(u1, a) := get_or_create false u0 ([], s "uint8") in
+  let '(u2, b) := get_or_create false u1 ([], s "byte") in
+  let '(u3, c) := get_or_create false u2 (s "p", s "T") in
+  a = b /\ a = ([], s "byte") /\ c = (s "p", s "T") /\ complete u3 a = true /\ complete u3 c = false.
+Proof. vm_compute. repeat split; reflexivity. Qed.
